@@ -20,7 +20,7 @@ RULE = ('3 forms with deterministic generated source (checked by the baseline); 
         'group at random fractions of the measured build time; file faults {delete, empty, 64-byte header, 1/10/25/50/90 %, all-but-last-byte, garbage} on the published '
         'module and on every file class the strace of a build shows as written; races with 2,4,8,16 processes; a case is one fault/race scenario; non-trivial if '
         'the fault was really injected (the process died at the stage / the file existed) and the follow-up request ran')
-MIN_NONTRIVIAL = {'quick': 30, 'thorough': 300}
+MIN_NONTRIVIAL = {'quick': 30, 'thorough': 280}
 REQUIRED_COUNTERS = ['stage_kill:died_at_stage', 'timed_kill:killed_during_build', 'file_fault:injected', 'race:processes', 'followup:requests', 'oracle:matrix_vs_reference',
                      'oracle:digest_stable', 'strace:files_written', 'inotify:events', 'hook:trace_lines']
 ASSUMPTIONS = ['a crash is a process kill (SIGKILL of the compiling process or its whole group); power loss with unsynced data is out of reach',
@@ -39,7 +39,7 @@ def cases(tier, seed):
             yield {'kind': 'stage_kill', 'stages': [st], 'form': form}
     for seq in ([['pyx_written', 'built'], ['published', 'cythonized']] if q else [[a, b] for a in STAGES for b in STAGES if a != b]):
         yield {'kind': 'stage_kill', 'stages': seq, 'form': 2}
-    for i in range(10 if q else 160):
+    for i in range(10 if q else 260):
         yield {'kind': 'timed_kill', 'idx': i, 'seed': seed, 'form': i % 3}
     faults = ['delete', 'empty', 'header64', 'p01', 'p10', 'p25', 'p50', 'p90', 'minus1', 'garbage']
     for f in faults:
@@ -299,7 +299,9 @@ def _file_fault_seq(rec, case):
             st = STAGES[int(rng.integers(1, len(STAGES)))]
             _request(form, xdg, 'k%d' % k, fault=st); steps.append('kill@' + st)
         rc, res, tail = _request(form, xdg, 'r%d' % k)
-        ok = _check_followup(rec, case, sig, form, rc, res, tail, {'steps': list(steps)}) and ok
+        lastf = [x for x in steps if not x.startswith('kill@')][-1:] or ['none']
+        sigk = dict(sig, target='published', fault='truncate' if lastf[0].startswith('p') or lastf[0] in ('header64', 'minus1') else lastf[0])
+        ok = _check_followup(rec, case, sigk, form, rc, res, tail, {'steps': list(steps)}) and ok
     shutil.rmtree(d, ignore_errors=True)
     rec.case(dict(case, steps=steps), nontrivial=ok)
 
